@@ -5,7 +5,7 @@ package shmipc
 // C19: the net.Listener / net.Conn adapter on real unix sockets: Listen, real client sessions dialling in, streams
 // surfacing through Accept, Read / Write on the wrapped streams, Close of conns / listener / clients.
 // Line protocol (shared with ShmVerif/Drv/C19.lean; every op waits for the adapter to settle before the snapshot):
-//   dial | open <k> | accept | echo <c> <n> | cclose <c> | drop <k> | lclose
+//   dial | latedial <0|1> | open <k> | accept | echo <c> <n> | cclose <c> | drop <k> | lclose
 
 import (
 	"bytes"
@@ -76,7 +76,7 @@ func c19WaitFor(d time.Duration, f func() bool) bool {
 func (c *c19Run) snap() string {
 	var cl []string
 	for _, k := range c.clients {
-		if k.s.IsClosed() {
+		if k.s == nil || k.s.IsClosed() {
 			cl = append(cl, "1")
 		} else {
 			cl = append(cl, "0")
@@ -119,12 +119,55 @@ func (c *c19Run) op(f []string) string {
 			settle()
 		}
 		return "ok " + c.snap()
+	case len(f) == 2 && f[0] == "latedial" && (f[1] == "0" || f[1] == "1"):
+		// a connection whose handshake is still in progress when (f[1] == "1") the listener is closed: the raw
+		// connection is accepted, Server() waits for the client's first message, Close runs, the client then completes
+		// the handshake. The session must not outlive the closed listener.
+		if len(c.clients) >= 3 {
+			return "bad-op"
+		}
+		conn, err := net.Dial("unix", c.path)
+		if err != nil {
+			if c.lclosed {
+				c.tags["dial-after-close-refused"] = true
+				return "refused " + c.snap()
+			}
+			c.setFail("dial", err.Error())
+			return "bad-op"
+		}
+		n0 := c.listed()
+		time.Sleep(100 * time.Millisecond) // the accept loop picks the connection up and starts the handshake
+		if f[1] == "1" {
+			c.ln.Close()
+			c.lclosed = true
+			c.tags["listener-closed-during-handshake"] = true
+		}
+		s, err := newSession(c12Config(fmt.Sprintf("%s_c%d", c.prefix, len(c.clients)), MemMapTypeMemFd), conn, true)
+		if err != nil {
+			if !c.lclosed {
+				c.setFail("dial", "client session: "+err.Error())
+				return "bad-op"
+			}
+			// the closed listener dropped the connection before the handshake ended: same as a session that ended at once
+			conn.Close()
+			s = nil
+		}
+		c.clients = append(c.clients, &c19Client{s: s})
+		if !c.lclosed {
+			c19WaitFor(time.Second, func() bool { return c.listed() > n0 })
+		} else {
+			time.Sleep(150 * time.Millisecond)
+		}
+		return "ok " + c.snap()
 	case len(f) == 2 && f[0] == "open":
 		k := vAtoi(f[1])
 		if k < 0 || k >= len(c.clients) {
 			return "bad-op"
 		}
 		cl := c.clients[k]
+		if cl.s == nil {
+			return "done " + c.snap()
+		}
 		st, err := cl.s.OpenStream()
 		if err != nil {
 			return "done " + c.snap()
@@ -288,6 +331,10 @@ func (c *c19Run) op(f []string) string {
 		if k < 0 || k >= len(c.clients) {
 			return "noop " + c.snap()
 		}
+		if c.clients[k].s == nil {
+			settle()
+			return "ok " + c.snap()
+		}
 		was := c.clients[k].s.IsClosed()
 		n0 := c.listed()
 		c.clients[k].s.Close()
@@ -334,6 +381,9 @@ func c19Exec(ops []string) vResult {
 		cc.conn.Close()
 	}
 	for k, cl := range c.clients {
+		if cl.s == nil {
+			continue
+		}
 		if !c19WaitFor(5*time.Second, func() bool { return cl.s.IsClosed() }) {
 			c.setFail("session-not-ended-after-listener-close", fmt.Sprintf("the listener is closed and every conn Accept returned is closed, yet session %d is still open 5 s later (streams opened on it: %d, of which %d were handed out by Accept)", k, len(cl.streams), func() int {
 				n := 0
@@ -347,7 +397,9 @@ func c19Exec(ops []string) vResult {
 		}
 	}
 	for _, cl := range c.clients {
-		c12CloseSession(cl.s)
+		if cl.s != nil {
+			c12CloseSession(cl.s)
+		}
 	}
 	os.Remove(c.path)
 	var tags []string
@@ -366,7 +418,15 @@ func c19Gen(r *rand.Rand, tier string, idx int) []string {
 	for i := 0; i < n; i++ {
 		switch x := r.Intn(20); {
 		case x < 2 && nc < 3:
-			ops = append(ops, "dial")
+			if r.Intn(3) == 0 {
+				late := r.Intn(2)
+				ops = append(ops, fmt.Sprintf("latedial %d", late))
+				if late == 1 {
+					closed = true
+				}
+			} else {
+				ops = append(ops, "dial")
+			}
 			nc++
 		case x < 8 && opened-nconn < 6:
 			ops = append(ops, fmt.Sprintf("open %d", r.Intn(nc)))
